@@ -56,3 +56,20 @@ func (e *Executor) statusOnError(t *ast.Task) error {
 	}
 	return checker.OnError(t)
 }
+
+// recordFingerprint lets the sources checker of a task record the present
+// fingerprint of its sources, as the up-to-date check of a normal run does.
+func (e *Executor) recordFingerprint(t *ast.Task) {
+	if e.Dry || len(t.Sources) == 0 {
+		return
+	}
+	method := t.Method
+	if method == "" {
+		method = e.Taskfile.Method
+	}
+	checker, err := fingerprint.NewSourcesChecker(method, e.TempDir.Fingerprint, e.Dry)
+	if err != nil {
+		return
+	}
+	_, _ = checker.IsUpToDate(t)
+}
